@@ -37,7 +37,7 @@ def make_cov(spec):
   import libsigopt.compute.covariance as cv
   hp = numpy.array(spec["hp"], dtype=float)
   life = spec.get("life", "fresh")
-  first = hp if life == "fresh" else hp * numpy.array([1.7, 0.6, 2.3, 0.45, 1.3, 0.8, 3.1, 0.7, 1.9, 0.5, 2.7, 0.9, 1.1][: len(hp)] + [1.5] * max(0, len(hp) - 13))
+  first = hp if life in ("fresh", "readmod") else hp * numpy.array([1.7, 0.6, 2.3, 0.45, 1.3, 0.8, 3.1, 0.7, 1.9, 0.5, 2.7, 0.9, 1.1][: len(hp)] + [1.5] * max(0, len(hp) - 13))
   arr = numpy.array(first, dtype=float)
   if spec["cls"] == "multitask":
     from libsigopt.compute.multitask_covariance import MultitaskTensorCovariance
@@ -49,6 +49,12 @@ def make_cov(spec):
   elif life == "inplace":
     arr[:] = hp
     k.hyperparameters = arr
+  elif life == "readmod":       # a caller reads the hyperparameters and scribbles on the array it got: the kernel must not follow
+    got = k.hyperparameters
+    try:
+      got *= 3.0
+    except (TypeError, ValueError):
+      pass
   return k
 
 
@@ -57,8 +63,14 @@ def make_gp(inp):
   from libsigopt.compute.misc.data_containers import HistoricalData
   pts = numpy.array(inp["points"], dtype=float)
   hd = HistoricalData(pts.shape[1])
-  hd.append_historical_data(pts, numpy.array(inp["values"], dtype=float), numpy.array(inp["noise"], dtype=float))
-  return GaussianProcess(make_cov(inp["cov"]), hd, mean_poly_indices=inp.get("mean_idx"), tikhonov_param=inp.get("tikhonov"))
+  vals, noise = numpy.array(inp["values"], dtype=float), numpy.array(inp["noise"], dtype=float)
+  hd.append_historical_data(pts, vals, noise)
+  gp = GaussianProcess(make_cov(inp["cov"]), hd, mean_poly_indices=inp.get("mean_idx"), tikhonov_param=inp.get("tikhonov"))
+  # the caller's buffers are the caller's: re-using them afterwards must not reach the model (it matters at the next re-factorisation)
+  pts *= -3.0
+  vals += 1e3
+  noise *= 0.0
+  return gp
 
 
 def gen_gp_input(rng, differentiable=False, well_conditioned=False, allow_multitask=True, max_n=9, max_dim=3):
@@ -71,7 +83,7 @@ def gen_gp_input(rng, differentiable=False, well_conditioned=False, allow_multit
   else:
     ls = [rng.uniform(0.15, 0.5) if well_conditioned else 10 ** rng.uniform(-1, 0.5) for _ in range(dim)]
     cov = dict(cls=rng.choice(pool), hp=[10 ** rng.uniform(-0.5, 0.5)] + ls)
-  cov["life"] = rng.choice(["fresh", "fresh", "reassigned", "inplace"])
+  cov["life"] = rng.choice(["fresh", "fresh", "reassigned", "inplace", "readmod"])
   pts = [[rng.uniform(0, 1) for _ in range(dim)] for _ in range(n)]
   if not well_conditioned:
     r = rng.random()
